@@ -1,0 +1,15 @@
+//go:build !verif
+
+package transport
+
+import (
+	"net"
+
+	"golang.org/x/crypto/ssh"
+)
+
+// openSessionOver is only reachable with the "verif" build tag (simhook.Dial returns nil without
+// it).
+func (t *Standard) openSessionOver(net.Conn, string, *Args, *ssh.ClientConfig) error {
+	panic("unreachable without build tag verif")
+}
